@@ -181,6 +181,9 @@ def x3_worker_exit_vs_submit(with_user=True, collected=False, nowait_shutdown=Fa
               "C08 more workers registered than max_workers": z3.UGT(popcount(S["processes.m"], 2), S["ex._max_workers"]),
               "C08 a worker was spawned without the management lock": S["ptable.spawned_unlocked"]}
     stuck = {"C07 submitted work is pending but no worker is left and nobody will start one (lost task)": lost,
+             "C07 a worker that left through the clean handshake is still registered: its sentinel will be taken for a "
+             "crash and it counts towards max_workers (no replacement)":
+                 z3.And(sl.all_ended(), S["fail"] == 0, (S["processes.m"] & ~S["ptable.alive"]) != 0),
              "C01 a thread is blocked for ever": z3.Not(sl.all_ended())}
     # F2 (known finding): executor collected, work pending, pool empty, nobody died: the specific stuck state
     known = {"F2": z3.And(S["weakref.dead"], S["pending.m"] != 0, S["processes.m"] == 0, S["fail"] == 0)}
